@@ -65,7 +65,9 @@ prop('C01',
                   'store.iter_frames.*', 'store.read_sync.*', 'store.get.*', 'store.append.fresh_id', 'store.append.frame_as_given',
                   'store.append.stored', 'store.insert_frame.three_entries', 'store.remove.three_tombstones',
                   'store_ops.Store::iter_frames.body', 'store_ops.Store::get.body', 'store_ops.read_sync_filter.body',
-                  'read.history.*', 'read_ops.read_history.body'],
+                  'read.history.*', 'read_ops.read_history.body',
+                  # "not since ... evicted": which frames the head:N collector may and must evict
+                  'store.gc_head.*', 'store_ops.gc_head_arm.body'],
      trusted=STORE_TRUST,
      explanation='Each clause of C01 that is decided by sequential code is a postcondition of the real function (extracted from '
                  '/repo at run time) discharged by Verus for all inputs; the order filter-then-take of read_sync and the history '
